@@ -20,7 +20,7 @@ RULE = (
     "PY_START and the first-call order of rule code objects per chain must equal get_active_rules(). Non-trivial = history with "
     ">=1 mutator after a cache-warming getRules/parse; distinct by the operation sequence. (4) Duplicate built-in names: each built-in "
     "block/inline/post-processing rule with a signature probe is registered a second time (before/after the first, built-in function), "
-    "toggled by name through ruler and facade (9 scripts x 3 presets); the rendering of the signature probe and of a combined document must "
+    "toggled by name through ruler and facade (9 scripts x 3 presets); the rendering of the signature probe, of a combined document and of a document where each block construct interrupts a paragraph, quote, item, table or definition (terminator chains) must "
     "equal that of a duplicate-free instance set to exactly the reported active rules."
 )
 ASSUMPTIONS = [
@@ -658,6 +658,7 @@ SIG = {
     "inline2": {"emphasis": "*x*", "strikethrough": "~~x~~"},
 }
 DUP_COMBINED = "- i\n\n      c1\n\n> q\n>\n>     c2\n\n    c3\n\n***\n\n# h\n\n```\nf\n```\n\n*e* `b` [l](u) ~~s~~ &amp; \\* <http://a.b>\n"
+DUP_INTERRUPT = "p\n```\nf\n```\np\n# h\np\n> q\n***\np\n- l\n\np\n<div>\n\n> q\n```\nf\n```\n\n- i\n# h\n\n|a|b|\n|-|-|\n|c|d|\n> q\n\n[r]:\n# h\n"
 DUP_SCRIPTS = [
     [("disable", "N")], [("disable", "N"), ("enable", "N")], [("parse",), ("disable", "N")], [("disable", "N"), ("parse",), ("enable", "N"), ("disable", "N")],
     [("md.disable", "N")], [("md.disable", "N"), ("parse",), ("md.enable", "N")], [("enable", "N")], [],
@@ -713,7 +714,7 @@ def duplicate_case(ctx, case):
     off = MarkdownIt(preset, {"linkify": False, "html": True})
     ruler_of(off, chain).disable(name)
     ctx.count("duplicate.cases")
-    for src in (SIG[chain][name], DUP_COMBINED):
+    for src in (SIG[chain][name], DUP_COMBINED, DUP_INTERRUPT):
         got, want = md.render(src), ref.render(src)
         ctx.count("duplicate.renderings_compared")
         if name in rep[chain]:
